@@ -392,6 +392,8 @@ def check_reorder(ctx, names, blob, mode, prop='C01'):
 
 def tree_shape_class(tree):
     h = tree['hierarchy']
+    if any(len(k) == 0 for l in h[:-1] for k in tree[l].values()):
+        return 'childless-parent'
     if not U.has_choice(tree):
         return 'no-choice'
     if len(tree[h[0]]) == 1:
